@@ -8,6 +8,7 @@ path.  Loops are not unrolled symbolically: a block revisited on an undecided
 branch aborts the path with status 'loop' (rules for looping functions use
 gbsa.loops instead).
 """
+import re
 from . import terms as T
 from .terms import C, S, O, AV, Env, int_type, mask, is_int, fmt
 
@@ -1147,6 +1148,10 @@ class Interp:
         m = self.models.get(callee)
         if m:
             return m
+        m = int_method_model(callee)
+        if m:
+            self.models[callee] = m
+            return m
         for key, fn in self.models.items():
             if key.endswith('*') and callee.startswith(key[:-1]):
                 return fn
@@ -1258,6 +1263,125 @@ def m_overflowing(op):
         else:
             yield (('agg', ('tuple',), (st.fresh(8, 'ov'), st.fresh(1, 'ovf'))), st, 'ok', None)
     return f
+
+
+INT_TYS = {'u8': (8, False), 'u16': (16, False), 'u32': (32, False), 'u64': (64, False), 'usize': (64, False),
+           'u128': (128, False), 'i8': (8, True), 'i16': (16, True), 'i32': (32, True), 'i64': (64, True),
+           'isize': (64, True), 'i128': (128, True)}
+_INT_METHOD = re.compile(r"^core::num::<impl (\w+)>::(\w+)$")
+_INT_FROM = re.compile(r"^<(\w+) as std::convert::From<(\w+)>>::from$")
+
+
+def _tuple2(a, b):
+    return ('agg', ('tuple',), (a, b))
+
+
+def int_method_model(callee):
+    """exact models of the inherent integer methods (core::num::<impl T>::m) and the lossless From conversions"""
+    mm = _INT_FROM.match(callee)
+    if mm and mm.group(1) in INT_TYS and mm.group(2) in INT_TYS | {'bool': 0}:
+        dbits = INT_TYS[mm.group(1)][0]
+        ssigned = INT_TYS.get(mm.group(2), (1, False))[1]
+
+        def conv(ip, st, fr, t, args, site, dest_ty):
+            a = args[0]
+            if is_int(a):
+                yield (O(dbits, 'sext' if ssigned else 'zext', a) if a[1] != dbits else a, st, 'ok', None)
+            else:
+                yield (st.fresh(dbits, 'from'), st, 'ok', None)
+        return conv
+    mm = _INT_METHOD.match(callee)
+    if not mm or mm.group(1) not in INT_TYS:
+        return None
+    bits, signed = INT_TYS[mm.group(1)]
+    meth = mm.group(2)
+
+    def val(f, arity):
+        def model(ip, st, fr, t, args, site, dest_ty):
+            if len(args) == arity and all(is_int(a) for a in args):
+                try:
+                    r = f(*args)
+                except Abort:
+                    r = None
+                if r is not None:
+                    yield (r, st, 'ok', None)
+                    return
+            st.events.append(('extcall', callee, tuple(args), site))
+            yield (T.UNIT if dest_ty == '()' else st.fresh(type_bits(dest_ty), 'ext:' + meth), st, 'ok', None)
+        return model
+    zero = C(bits, 0)
+    sbit = C(bits, 1 << (bits - 1))
+
+    def shamt(b):
+        # shift amounts are u32; reduce modulo the width as the wrapping/rotating forms do
+        x = b if b[1] == bits else (O(bits, 'trunc', b) if b[1] > bits else O(bits, 'zext', b))
+        return O(bits, 'and', x, C(bits, bits - 1))
+
+    def isneg(a):
+        return O(1, 'ne', O(bits, 'and', a, sbit), zero)
+
+    def ite(c, x, y):
+        # c is 1-bit: select with masks (stays inside the bit-vector fragment)
+        mask_ = O(bits, 'sub', zero, O(bits, 'zext', c))
+        return O(bits, 'or', O(bits, 'and', x, mask_), O(bits, 'and', y, O(bits, 'not', mask_)))
+
+    def rot(a, b, left):
+        c = T_const(b)
+        if c is None:
+            raise Abort('rotate by a non-constant amount')
+        c %= bits
+        if c == 0:
+            return a
+        l, r = (c, bits - c) if left else (bits - c, c)
+        return O(bits, 'or', O(bits, 'shl', a, C(bits, l)), O(bits, 'shr', a, C(bits, r)))
+
+    def bswap(a):
+        out = None
+        n = bits // 8
+        for i in range(n):
+            byte = O(bits, 'and', O(bits, 'shr', a, C(bits, 8 * i)), C(bits, 0xff))
+            part = O(bits, 'shl', byte, C(bits, 8 * (n - 1 - i)))
+            out = part if out is None else O(bits, 'or', out, part)
+        return out
+    ovf = {'add': 'sadd_ovf' if signed else 'add_ovf', 'sub': 'ssub_ovf' if signed else 'sub_ovf',
+           'mul': 'smul_ovf' if signed else 'mul_ovf'}
+    table = {
+        'wrapping_add': (lambda a, b: O(bits, 'add', a, b), 2),
+        'wrapping_sub': (lambda a, b: O(bits, 'sub', a, b), 2),
+        'wrapping_mul': (lambda a, b: O(bits, 'mul', a, b), 2),
+        'wrapping_neg': (lambda a: O(bits, 'sub', zero, a), 1),
+        'wrapping_shl': (lambda a, b: O(bits, 'shl', a, shamt(b)), 2),
+        'wrapping_shr': (lambda a, b: O(bits, 'sar' if signed else 'shr', a, shamt(b)), 2),
+        'overflowing_add': (lambda a, b: _tuple2(O(bits, 'add', a, b), O(1, ovf['add'], a, b)), 2),
+        'overflowing_sub': (lambda a, b: _tuple2(O(bits, 'sub', a, b), O(1, ovf['sub'], a, b)), 2),
+        'overflowing_mul': (lambda a, b: _tuple2(O(bits, 'mul', a, b), O(1, ovf['mul'], a, b)), 2),
+        'rotate_left': (lambda a, b: rot(a, b, True), 2),
+        'rotate_right': (lambda a, b: rot(a, b, False), 2),
+        'swap_bytes': (bswap, 1),
+        'is_power_of_two': (lambda a: O(1, 'and', O(1, 'ne', a, zero),
+                                        O(1, 'eq', O(bits, 'and', a, O(bits, 'sub', a, C(bits, 1))), zero)), 1),
+    }
+    if signed:
+        table.update({
+            'wrapping_abs': (lambda a: ite(isneg(a), O(bits, 'sub', zero, a), a), 1),
+            'unsigned_abs': (lambda a: ite(isneg(a), O(bits, 'sub', zero, a), a), 1),
+            'is_negative': (lambda a: isneg(a), 1),
+            'is_positive': (lambda a: O(1, 'and', O(1, 'eq', O(bits, 'and', a, sbit), zero), O(1, 'ne', a, zero)), 1),
+        })
+    else:
+        table.update({
+            'saturating_add': (lambda a, b: ite(O(1, 'add_ovf', a, b), C(bits, mask(bits)), O(bits, 'add', a, b)), 2),
+            'saturating_sub': (lambda a, b: ite(O(1, 'sub_ovf', a, b), zero, O(bits, 'sub', a, b)), 2),
+            'abs_diff': (lambda a, b: ite(O(1, 'ult', a, b), O(bits, 'sub', b, a), O(bits, 'sub', a, b)), 2),
+        })
+    if meth in table:
+        f, ar = table[meth]
+        return val(f, ar)
+    return None
+
+
+def T_const(t):
+    return t[2] if t is not None and t[0] == 'c' else None
 
 
 def m_min(ip, st, fr, t, args, site, dest_ty):
